@@ -147,3 +147,88 @@ func vh_unfragmented() {
 	vreach("unfrag")
 }
 
+
+// ---------- C13: ICMPv4 echo ----------
+
+// RFC 1071 reference sum (independent of protocol/header)
+func vhOnes(a, b uint16) uint16 {
+	s := uint32(a) + uint32(b)
+	return uint16(s&0xffff) + uint16(s>>16)
+}
+func vhSum(b []byte, init uint16) uint16 {
+	s := init
+	i := 0
+	for ; i+1 < len(b); i += 2 {
+		s = vhOnes(s, uint16(b[i])<<8|uint16(b[i+1]))
+	}
+	if i < len(b) {
+		s = vhOnes(s, uint16(b[i])<<8)
+	}
+	return s
+}
+
+func vhICMPReq(typ byte, n int) []byte {
+	b := make([]byte, 8+n)
+	b[0] = typ
+	b[1] = vnU8("code")
+	b[2], b[3] = vnU8("ck0"), vnU8("ck1")
+	id := vnBytes("identseq", 4)
+	copy(b[4:8], id)
+	copy(b[8:], vnBytes("payload", n))
+	return b
+}
+
+func vh_echo4() {
+	env := vhNewEnv()
+	e := env.e
+	q := vnChoice("pending", 3) * 5 // 0, 5 or 10 requests already waiting
+	for i := 0; i < q; i++ {
+		e.echoRequests <- echoRequest{r: env.r.Clone(), v: buffer.View([]byte{0, 0, 0, 0})}
+	}
+	n := vnChoice("len", vparam("maxlen", 4)+1)
+	req := vhICMPReq(8, n)
+	split := 0
+	if vnBool("split") {
+		split = 8 + vnChoice("at", 3)
+	}
+	e.handleICMP(&env.r, vhPkt(append([]byte{}, req...), split))
+	if q == 10 {
+		vassert(len(e.echoRequests) == 10 && len(env.link.Sent) == 0 && len(env.disp.Pkts) == 0, "with ten requests pending a further one is dropped without any other effect")
+		vreach("dropped")
+		return
+	}
+	vassert(len(e.echoRequests) == q+1, "an echo request is queued exactly once while fewer than ten are pending")
+	vassert(len(env.link.Sent) == 0, "nothing is emitted before the replier runs")
+	// drain the older requests, then run one iteration of echoReplier on ours
+	for i := 0; i < q; i++ {
+		<-e.echoRequests
+	}
+	r := <-e.echoRequests
+	err := sendPing4(&r.r, 0, r.v)
+	vassert(err == nil && len(env.link.Sent) == 1, "each request is answered by exactly one packet")
+	f := env.link.Sent[0]
+	h := f.Hdr
+	vassert(len(h) >= 24 && h[0] == 0x45 && h[9] == 1, "the reply is an ICMP packet in a 20-byte IPv4 header")
+	vassert(vhSame(h[12:16], []byte(vhLocal)) && vhSame(h[16:20], []byte(vhRemote)), "sent from the address that was pinged to the requester")
+	// the ICMP message is whatever follows the IP header (this stack puts the sequence
+	// number into the payload view; the wire image is what counts)
+	msg := append(append([]byte{}, h[20:]...), f.Payload...)
+	vassert(int(h[2])<<8|int(h[3]) == 20+len(msg) && len(msg) == 8+n, "the IPv4 total length covers header and ICMP message, which has the request's length")
+	vassert(msg[0] == 0 && msg[1] == 0, "type 0 (echo reply), code 0")
+	vassert(vhSame(msg[4:8], req[4:8]) && vhSame(msg[8:], req[8:]), "identifier, sequence number and payload are mirrored")
+	ck := uint16(msg[2])<<8 | uint16(msg[3])
+	msg[2], msg[3] = 0, 0
+	vassert(ck == ^vhSum(msg, 0), "the ICMP checksum is the complemented RFC 1071 sum of the message")
+	vreach("answered")
+}
+
+// other ICMP types never produce an echo reply
+func vh_icmp4_other() {
+	env := vhNewEnv()
+	n := vnChoice("len", 13)
+	b := vnBytes("icmp", n)
+	vassume(n == 0 || b[0] != 8)
+	env.e.handleICMP(&env.r, vhPkt(b, 0))
+	vassert(len(env.e.echoRequests) == 0 && len(env.link.Sent) == 0, "only echo requests are answered with echo replies")
+	vreach("other")
+}
